@@ -332,6 +332,7 @@ func (st *c01State) stalledPeer(a Action) {
 		return
 	}
 	res.Probe("peer-stalled-mid-body")
+	res.Probe("fault:stalled-request-body")
 	f := w.Send(world.AgentReq{Port: w.Cfg.Port, URI: uri, Body: d.Frame(nil)})
 	t0 := w.Sim.Now()
 	w.Sim.Run(func() bool { return f.Done || w.Sim.Now().Sub(t0) > 2*time.Minute }, true)
@@ -389,6 +390,7 @@ func (st *c01State) duplicate(a Action) {
 		fs(&cl2)
 		body = d.Frame(pk)
 		res.Probe("duplicated-requests-with-callbacks")
+		res.Probe("fault:duplicated-request")
 	} else if a.D%5 == 2 {
 		// ... or a handful of callbacks of any kind (whatever per-agent state their handlers keep)
 		cr := simrt.NewRand(uint64(a.D) + 31)
